@@ -584,6 +584,25 @@ def c_struct_body(n, sz):
     return None
 
 
+# member lists whose eightbytes MIX integer and float/double members (psABI merge rule: INTEGER wins), per
+# (block kind, size); used by the c2mir-caller stage besides the plain bodies above
+MIXED_BODIES = {
+    ("blk1", 8): ["int a; float b;", "float a; int b;", "short a; char b; float c;"],
+    ("blk1", 16): ["float a; int b; long c;", "long a; int b; float c;", "int a; float b; float c; int d;"],
+    ("blk1", 12): ["int a; float b; int c;", "float a; int b; int c;"],
+    ("blk3", 16): ["int a; float b; double c;", "float a; int b; double c;", "int a; float b; float c; float d;"],
+    ("blk4", 16): ["double a; int b; float c;", "double a; float b; int c;", "float a; float b; int c; float d;"],
+    ("blk3", 12): ["int a; float b; float c;", "float a; int b; float c;"],
+    ("blk4", 12): ["float a; float b; int c;"],
+}
+
+
+def struct_body_variant(n, sz, sel, mixed):
+    """plain body, or (c2mir stage) one of the mixed-eightbyte bodies of the same psABI class"""
+    alts = [c_struct_body(n, sz)] + (MIXED_BODIES.get((n, sz), []) if mixed else [])
+    return alts[sel % len(alts)]
+
+
 def gcc_supported(c):
     if len(all_args(c)) > 62:        # the gcc callees report one bit per argument in a 64-bit mask
         return False
@@ -618,7 +637,7 @@ def c_callee(name, c, b, m, model_x, info=None):
         pname = f"a{j}"
         if n.startswith("blk"):
             sname = f"S_{name}_{j}"
-            out.append(f"struct {sname} {{ {c_struct_body(n, sz)} }};")
+            out.append(f"struct {sname} {{ {struct_body_variant(n, sz, (b.exp[j][0][0] >> 9) + j, info is not None)} }};")
             ctype = f"struct {sname}"
             bs = b"".join(v.to_bytes(8, "little") for (v, nb, rel) in b.exp[j])[:sz]
             arr = ",".join(str(x) for x in bs)
@@ -667,7 +686,25 @@ def c_callee(name, c, b, m, model_x, info=None):
             return f"from32 ({v & 0xFFFFFFFF}u)" if t == "f" else f"from64 ({v}ull)"
         lo, hi = b.ld[int(loc[1:])]
         return f"fromld ({lo}ull, {hi}u)"
-    if len(res) == 0:
+    mixres = None
+    wide_int = ("i64", "u64", "p")
+    if info is not None and (b.ret["g1"] >> 7) % 3 != 0:
+        sel = (b.ret["g1"] >> 11) % 2
+        if len(res) == 1 and res[0] in wide_int:
+            mixres = (["int a; float b;", "float a; int b;"][sel], 8)
+        elif len(res) == 2 and res[0] in wide_int and res[1] == "d":
+            mixres = (["int a; float b; double c;", "float a; int b; double c;"][sel], 16)
+        elif len(res) == 2 and res[0] == "d" and res[1] in wide_int:
+            mixres = (["double a; int b; float c;", "double a; float b; int c;"][sel], 16)
+        elif len(res) == 2 and res[0] in wide_int and res[1] in wide_int:
+            mixres = (["int a; float b; float c; int d;", "float a; int b; long c;"][sel], 16)
+    if mixres is not None:
+        bits = [b.ret[rl[k]] for k in range(len(res))]      # raw images of rax/rdx/xmm0 the struct is made of
+        out.append(f"struct RM_{name} {{ {mixres[0]} }};")
+        rtype = f"struct RM_{name}"
+        winit = ", ".join(f"{v}ull" for v in bits)
+        rstmt = f"  struct RM_{name} r; uint64_t w[2] = {{{winit}}}; memcpy (&r, w, {mixres[1]}); return r;"
+    elif len(res) == 0:
         rtype, rstmt = "void", ""
     elif len(res) == 1:
         rtype, rstmt = CT[res[0]], f"  return {rval(0)};"
@@ -696,7 +733,9 @@ def c_callee(name, c, b, m, model_x, info=None):
         out.append(rstmt)
     out.append("}")
     if info is not None:
-        if len(res) == 0:
+        if mixres is not None:
+            out.append(f"int c05_chk_{name} ({rtype} r) {{ uint64_t w[2] = {{{winit}}}; return memcmp (&r, w, {mixres[1]}) != 0; }}")
+        elif len(res) == 0:
             out.append(f"int c05_chk_{name} (void) {{ return 0; }}")
         elif len(res) == 1:
             n = 10 if res[0] == "ld" else f"sizeof (e)"
@@ -1489,6 +1528,8 @@ def main():
     if ck.replay:
         rp = json.load(open(ck.replay))
         inp = rp.get("input", {})
+        if isinstance(rp.get("seed"), int):
+            ck.seed = rp["seed"]      # sentinels (and the struct member lists of the c2mir stage) derive from it
         if "c_prototype" in inp and exe_c2m is not None:
             c = case_from_line(inp["c_prototype"])
             eng = inp.get("engine", "c2m -ei").split()[-1]
